@@ -223,6 +223,14 @@ static std::vector<Letter> make_alphabet(DataType t) {
     std::vector<Letter> a;
     std::vector<Vals> own = own_pool(t);
     for (auto &v : own) { Letter l; l.kind = ASSIGN; l.vals = v; l.label = "assign(" + vals_str(v) + ")"; l.cls = "assign(length " + len_class(v.size()) + ")"; a.push_back(l); }
+    {   // a vector of the same length as own[3] that differs from it in ONE element only; for Double the difference is the sign of a
+        // zero (the two vectors compare equal element by element under operator==, their bit patterns differ)
+        Vals tw = own[3];
+        if (t == DataType::Double) tw[0] = VD(0.0);
+        else if (t == DataType::Bool) tw[2] = VB(true);
+        else tw[2] = ordinary(t, 6);
+        Letter l; l.kind = ASSIGN; l.vals = tw; l.label = "assign(" + vals_str(tw) + ")"; l.cls = "assign(length 3, one element differs from the other length-3 vector)"; a.push_back(l);
+    }
     auto bad = [&](const Vals &v, const std::string &cls, bool ext) { Letter l; l.kind = ASSIGN_BAD; l.vals = v; l.label = "assign(" + vals_str(v) + ")"; l.cls = cls; l.ext = ext; a.push_back(l); };
     DataType w1 = confusable(t, 0), w2 = confusable(t, 1);
     bad({ordinary(w1, 0), ordinary(w1, 1)}, "assign(vector of another type)", false);
